@@ -29,7 +29,10 @@ func c02Pool() []poolVal {
 		{"(7 & 3)", "numbitwise", ""}, {"(1 << 40)", "numbitwise", ""}, {"(5 | 0)", "numbitwise", ""},
 		{`""`, "str-empty-lit", ""}, {`("" + "")`, "str-empty-cat", ""},
 		{`"a"`, "str-lit", ""}, {`("" + "a")`, "str-cat", ""}, {`"abc"`, "str-lit", ""}, {`("ab" + "c")`, "str-cat", ""},
-		{`"5"`, "str-numeric-lit", ""}, {`("" + "5")`, "str-numeric-cat", ""}, {`"০৫"`, "str-numeric-bn", ""}, {`"a b"`, "str-lit", ""}, {`"%"`, "str-percent", ""}, {`"%d%s"`, "str-percent", ""},
+		{`"5"`, "str-numeric-lit", ""}, {`("" + "5")`, "str-numeric-cat", ""}, {`"০৫"`, "str-numeric-bn", ""}, {`"a b"`, "str-lit", ""},
+		// canonically equivalent but differently spelled strings are different strings
+		{"\"\u09df\"", "str-nfc-composed", ""}, {"\"\u09af\u09bc\"", "str-nfc-decomposed", ""}, {"\"\u00e9\"", "str-nfc-composed", ""}, {"(\"e\" + \"\u0301\")", "str-nfc-decomposed", ""},
+		{`"%"`, "str-percent", ""}, {`"%d%s"`, "str-percent", ""},
 		{"[]", "arr", ""}, {"[1]", "arr", ""}, {"[1, 2]", "arr", ""},
 		{"{}", "obj", ""}, {"{k: 1}", "obj", ""},
 		{"fq", "fn", Fun("fq", "", "") + "\n"}, {B["len"], "builtin", ""}, {B["abs"], "builtin", ""},
@@ -65,6 +68,19 @@ func c02Run(c *Ctx) {
 			}
 			cs := &Case{Gen: "unary", Src: a.Pre + Var("a", a.Expr) + "\n" + Print(op+"a") + "\n", X: map[string]string{"op": "u" + op, "ka": a.Kind}}
 			c02Judge(c, cs)
+		}
+		// chains of prefix operators applied directly to each other
+		for _, o1 := range c02UnOps {
+			for _, o2 := range c02UnOps {
+				if c.Mine() {
+					c02Judge(c, &Case{Gen: "unary-chains", Src: a.Pre + Var("a", a.Expr) + "\n" + Print(o1+" "+o2+"a") + "\n" + Print("("+o1+" "+o2+"a) + 1") + "\n", X: map[string]string{"op": "u" + o1 + o2, "ka": a.Kind}})
+				}
+				for _, o3 := range c02UnOps {
+					if c.Mine() {
+						c02Judge(c, &Case{Gen: "unary-chains", Src: a.Pre + Var("a", a.Expr) + "\n" + Print(o1+" "+o2+" "+o3+"a") + "\n", X: map[string]string{"op": "u" + o1 + o2 + o3, "ka": a.Kind}})
+					}
+				}
+			}
 		}
 		for _, op := range c02BinOps {
 			if !c.Mine() {
@@ -321,12 +337,12 @@ func c02BigPow(c *Ctx, cs *Case) {
 func init() {
 	register(&CheckDef{
 		ID:          "C02",
-		Rule:        "programs `ধরি a = <producer>; ধরি b = <producer>; দেখাও a op b;` for every binary operator x every ordered pair of a 45-value pool (all value kinds, boundary magnitudes, literal vs computed producers), unary and reflexive forms, equality laws (symmetry, negation, reflexivity) for every pair, random doubles by bit pattern, random integers under bitwise operators, random nested expressions, exact integer powers against math/big; each compared with refborno's expected value or fault (stdout numerals by read-back, first diagnostic by category and line, exit status). Non-trivial = distinct program text whose comparison was decided (not skipped out of domain).",
+		Rule:        "programs `ধরি a = <producer>; ধরি b = <producer>; দেখাও a op b;` for every binary operator x every ordered pair of a 51-value pool (all value kinds, boundary magnitudes, literal vs computed producers), unary forms, chains of two and three prefix operators, reflexive forms, equality laws (symmetry, negation, reflexivity) for every pair, random doubles by bit pattern, random integers under bitwise operators, random nested expressions, exact integer powers against math/big; each compared with refborno's expected value or fault (stdout numerals by read-back, first diagnostic by category and line, exit status). Non-trivial = distinct program text whose comparison was decided (not skipped out of domain).",
 		Assumptions: []string{"Go's float64 arithmetic and math.Mod/math.Pow in the harness are IEEE-754 (math.Pow additionally cross-checked against math/big on exact integer powers)", "the absolute result of arithmetic on numeric-looking strings, of == on two distinct containers, and of bitwise operations outside the exactly-representable range is not pinned by the property (skipped, counted)"},
 		Run:         c02Run,
 		Judge:       c02Judge,
 		MustCount: func(c *Ctx) []string {
-			return []string{"gen:matrix", "gen:eqlaws", "gen:randdouble", "gen:randbitwise", "gen:nested", "gen:bigpow", "outcome:fault", "outcome:value", "cli_runs"}
+			return []string{"gen:matrix", "gen:unary-chains", "gen:eqlaws", "gen:randdouble", "gen:randbitwise", "gen:nested", "gen:bigpow", "outcome:fault", "outcome:value", "cli_runs"}
 		},
 	})
 }
